@@ -87,6 +87,8 @@ var msAlphabet = []msReq{
 	{"reval-v-e-304", "GET", "/v", "e", ""},
 	{"post-c", "POST", "/c", "", ""},
 	{"put-d", "PUT", "/d", "", ""},
+	{"reload-b", "GET", "/b", "", "no-cache"},
+	{"reload-v-e", "GET", "/v", "e", "no-cache"},
 }
 
 // msKeyPairs are always part of the quick tier: overlapping stores of two
@@ -95,6 +97,7 @@ var msAlphabet = []msReq{
 var msKeyPairs = [][2]string{
 	{"variant-v-new", "variant-v-new2"}, {"reval-v-e-304", "variant-v-new"}, {"swr-v-b", "variant-v-new"},
 	{"reval-c-304", "post-c"}, {"swr-b-304", "post-b"}, {"replace-d-200", "put-d"}, {"reval-v-e-304", "post-v"}, {"swr-v-b", "post-v"},
+	{"swr-b-304", "reload-b"}, {"reval-v-e-304", "reload-v-e"},
 }
 
 type msResult struct {
@@ -456,6 +459,7 @@ func TestC16ModeS(t *testing.T) {
 func msJudge(r *run.Runner, sig string, reqs []msReq, results []*msResult, final map[string]string, trace []string) {
 	tr := strings.Join(trace, " ; ")
 	postDone := map[string]bool{}
+	replacedKey := map[string]bool{}
 	for _, res := range results {
 		q := res.req
 		if res.panicv != "" {
@@ -468,6 +472,11 @@ func msJudge(r *run.Runner, sig string, reqs []msReq, results []*msResult, final
 		}
 		if q.Method != "GET" && res.status >= 200 && res.status < 400 {
 			postDone[q.Path] = true
+		}
+		if q.Method == "GET" && q.CC == "no-cache" && res.status == 200 && res.header.Get("X-Httpcache-Status") == "MISS" {
+			// a reload fetched and stored a new representation: the one it
+			// replaced must not come back either
+			replacedKey[q.Path+"|"+q.XA] = true
 		}
 		want := q.Path + "|" + q.XA
 		if res.status != 504 && res.header.Get("X-Res") != want {
@@ -492,6 +501,9 @@ func msJudge(r *run.Runner, sig string, reqs []msReq, results []*msResult, final
 		}
 		if !strings.HasPrefix(v, "504") && !strings.Contains(v, "res="+key) {
 			r.Violation("stored-wrong-resource", sig, fmt.Sprintf("after schedule [%s] the store serves %s for %s", tr, v, key), nil)
+		}
+		if replacedKey[key] && strings.Contains(v, "body=old") && !strings.HasPrefix(v, "504") {
+			r.Violation("replaced-entry-back", sig, fmt.Sprintf("after schedule [%s] the representation of %s that a reload of the tuple replaced is served again: %s", tr, key, v), nil)
 		}
 		if postDone[path] && (strings.Contains(v, "gen=old") || strings.Contains(v, "body=old")) && !strings.HasPrefix(v, "504") {
 			r.Violation("invalidated-entry-back", sig, fmt.Sprintf("after schedule [%s] a response stored before the successful unsafe request to %s is served again unvalidated: %s", tr, path, v), nil)
